@@ -56,6 +56,11 @@ pub fn build_from_tlc(chunks: &[Value], rot: usize) -> Option<Vec<u8>> {
                 let prog: Vec<Sym> = serde_json::from_value(c["prog"].clone()).ok()?;
                 let u = c["u"].as_i64()?;
                 let pk = c["pk"].as_str()?;
+                let eos = c["eos"].as_bool().unwrap_or(false);
+                let mut prog = prog;
+                if eos {
+                    prog.push(Sym::Eos);
+                }
                 let props = if class >= 2 {
                     let t = PROPS_TAB[(np + rot) % PROPS_TAB.len()];
                     Some(Props { lc: t.0, lp: t.1, pb: t.2 })
@@ -84,12 +89,31 @@ pub fn build_from_tlc(chunks: &[Value], rot: usize) -> Option<Vec<u8>> {
             }
             "badprops" => {
                 let class = c["class"].as_u64()? as u8;
-                let pb: u8 = if c["kind"].as_str()? == "ge225" { 225 } else { 4 + 9 * 1 };
-                out.push(0x80 | (class << 5));
-                out.extend_from_slice(&[0, 0, 0, 5, pb, 0, 0, 0, 0, 0, 0]);
+                if c["kind"].as_str()? == "ge225" {
+                    out.push(0x80 | (class << 5));
+                    out.extend_from_slice(&[0, 0, 0, 5, 225, 0, 0, 0, 0, 0, 0]);
+                } else {
+                    // lc + lp > 4 is illegal in LZMA2 but perfectly codable: give the chunk a well-formed
+                    // payload under those properties, so that a decoder skipping the check would succeed
+                    let bad = [Props { lc: 4, lp: 1, pb: 0 }, Props { lc: 8, lp: 4, pb: 2 }, Props { lc: 3, lp: 2, pb: 1 }][rot % 3];
+                    let mut st2 = st.clone();
+                    let prog = vec![Sym::Lit { b: 1 }, Sym::Lit { b: 2 }, Sym::Match { d: 2, n: 6 }, Sym::Lit { b: 3 }];
+                    // encode by hand: L2State refuses nothing, props are just numbers to the encoder
+                    let ch = st2.push(&Chunk::Lzma { class, props: Some(bad), prog });
+                    out.extend_from_slice(&ch.bytes);
+                    out.push(0);
+                }
             }
             "eof" => {}
             _ => return None,
+        }
+    }
+    // A behaviour that ended in a faulty LZMA chunk has no end byte in the model (decoding stopped there).
+    // Give a lenient decoder a well-formed continuation, otherwise it would still fail later for lack of
+    // input and the leniency would stay invisible.
+    if let Some(last) = chunks.last() {
+        if last["k"] == "lzma" {
+            out.push(0);
         }
     }
     Some(out)
@@ -122,7 +146,19 @@ pub fn check_case(c: &L2Case, prop: &str, rep: &mut Report) -> bool {
     }
     let (o, consumed) = match c.api.as_str() {
         "lzma2" => api::lzma2_bytes(&data),
-        "raw" => api::raw_lzma2(&data),
+        "raw" => {
+            // the raw decoder object is reusable: the verdict must not depend on what the same object
+            // saw before (same stream again, with and without reset)
+            let first = api::raw_lzma2(&data);
+            let again = raw_twice(&data);
+            if let Some(msg) = again {
+                let mut cj = serde_json::to_value(c).unwrap();
+                cj["kind"] = json!("lzma2");
+                rep.violation(prop, msg, cj);
+                return false;
+            }
+            first
+        }
         "xz" => {
             let x = wrap_xz(&data, &e.out, 1);
             (api::xz_bytes(&x), 0)
@@ -166,6 +202,37 @@ pub fn check_case(c: &L2Case, prop: &str, rep: &mut Report) -> bool {
         return false;
     }
     true
+}
+
+/// Decode the same stream three times on ONE Lzma2Decoder (plain reuse, then after reset()).
+fn raw_twice(data: &[u8]) -> Option<String> {
+    use lzma_rs::decompress::raw::Lzma2Decoder;
+    let r = crate::io::catch(|| {
+        let mut d = Lzma2Decoder::new();
+        let mut v = vec![];
+        for k in 0..3 {
+            if k == 2 {
+                d.reset();
+            }
+            let mut out = vec![];
+            let mut rd = data;
+            let ok = d.decompress(&mut rd, &mut out).is_ok();
+            v.push((ok, out));
+        }
+        v
+    });
+    match r {
+        crate::io::Caught::Panic(m) => Some(format!("panic on reuse: {}", m)),
+        crate::io::Caught::Done(v) => {
+            if v[0].0 != v[2].0 || (v[0].0 && v[0].1 != v[2].1) {
+                Some(format!("the same stream gives {} on a new Lzma2Decoder but {} after the same object saw it before and was reset", if v[0].0 { "Ok" } else { "Err" }, if v[2].0 { "Ok" } else { "Err" }))
+            } else if !v[0].0 && v[1].0 {
+                Some("a stream rejected by a new Lzma2Decoder is accepted when offered to the same object again".to_string())
+            } else {
+                None
+            }
+        }
+    }
 }
 
 fn wants(prop: &str, res: &str, why: &str) -> bool {
